@@ -396,14 +396,24 @@ pub fn c16_case(seed: u64, case: u64, steps: usize) -> CaseResult {
         }
     };
     let ids: Vec<String> = (0..12).map(|i| format!("i{}", i)).collect();
+    let tids: Vec<String> = (0..8).map(|i| format!("t{}", i)).collect();
     let mut cur: Vec<String> = vec![];
-    let mut recorded: Vec<(String, Vec<String>)> = vec![];
+    let mut cur2: Vec<String> = vec![];
+    // (descriptor, revision, array submitted when the revision was created)
+    let mut recorded: Vec<(&'static str, String, Vec<String>)> = vec![];
     let key = format!("items{}", FLAT);
+    let key2 = format!("tags{}", FLAT);
     let mut reopens = 0u64;
+    let mut conflicts = 0u64;
     let mut last_script = 0usize;
-    for step in 0..steps {
-        let script = if r.chance(25) { last_script } else { r.below(9) };
-        last_script = script;
+    fn mkdoc(key: &str, key2: &str, a: &[String], b: &[String], step: usize) -> serde_json::Map<String, Value> {
+        let mut d = serde_json::Map::new();
+        d.insert(key.to_string(), Value::Array(a.iter().map(|i| json!({"_id": i})).collect()));
+        d.insert(key2.to_string(), Value::Array(b.iter().map(|i| json!({"_id": i})).collect()));
+        d.insert("s".into(), json!(step));
+        d
+    }
+    fn edit_chain(r: &mut Rng, cur: &mut Vec<String>, ids: &[String], script: usize) {
         match script {
             0 => {
                 if !cur.is_empty() {
@@ -419,8 +429,7 @@ pub fn c16_case(seed: u64, case: u64, steps: usize) -> CaseResult {
                 }
             }
             4 => {
-                // refill
-                for id in &ids {
+                for id in ids {
                     if !cur.contains(id) && r.chance(40) {
                         cur.push(id.clone());
                     }
@@ -442,11 +451,18 @@ pub fn c16_case(seed: u64, case: u64, steps: usize) -> CaseResult {
                 }
             }
         }
-        let items: Vec<Value> = cur.iter().map(|i| json!({"_id": i})).collect();
-        let mut d = serde_json::Map::new();
-        d.insert(key.clone(), Value::Array(items));
-        d.insert("s".into(), json!(step));
-        res.trace.push(format!("update items={:?}", cur));
+    }
+    for step in 0..steps {
+        let script = if r.chance(25) { last_script } else { r.below(9) };
+        last_script = script;
+        edit_chain(&mut r, &mut cur, &ids, script);
+        if r.chance(50) {
+            let s2 = r.below(9);
+            edit_chain(&mut r, &mut cur2, &tids, s2);
+        }
+        let d = mkdoc(&key, &key2, &cur, &cur2, step);
+        res.trace.push(format!("update items={:?} tags={:?}", cur, cur2));
+        let in_conflict_before = m.in_conflict().iter().any(|u| u.starts_with('^'));
         let up = {
             let mm = &m;
             guard(|| mm.update(d.clone()))
@@ -459,7 +475,10 @@ pub fn c16_case(seed: u64, case: u64, steps: usize) -> CaseResult {
             return res;
         }
         if let Ok(wv) = m.get_winner(A) {
-            recorded.push((wv, cur.clone()));
+            recorded.push((A, wv, cur.clone()));
+        }
+        if let Ok(wv) = m.get_winner(B) {
+            recorded.push((B, wv, cur2.clone()));
         }
         let (ds, ok) = read_doc(&m);
         res.count("c16_reads_checked", 1);
@@ -467,10 +486,13 @@ pub fn c16_case(seed: u64, case: u64, steps: usize) -> CaseResult {
             res.viol("C16", "read-failed-in-chain", ds);
             return res;
         }
-        let dv: Value = serde_json::from_str(&ds).unwrap();
-        let got = find_array(&dv, A).map(|a| ids_of(a)).unwrap_or_default();
-        if got != cur {
-            res.viol("C16", "read-differs-from-submitted-array", format!("step {} cap {}: {:?} vs {:?}", step, cap, got, cur));
+        if !in_conflict_before {
+            let dv: Value = serde_json::from_str(&ds).unwrap();
+            let got = find_array(&dv, A).map(|a| ids_of(a)).unwrap_or_default();
+            let got2 = find_array(&dv, B).map(|a| ids_of(a)).unwrap_or_default();
+            if got != cur || got2 != cur2 {
+                res.viol("C16", "read-differs-from-submitted-array", format!("step {} cap {}: {:?}/{:?} vs {:?}/{:?}", step, cap, got, got2, cur, cur2));
+            }
         }
         if r.below(4) == 0 {
             let mm = &m;
@@ -506,21 +528,73 @@ pub fn c16_case(seed: u64, case: u64, steps: usize) -> CaseResult {
                 }
             }
         }
+        if r.below(14) == 0 {
+            // a peer branches from the committed state, both sides edit, the peer's block comes back:
+            // the chain continues while the arrays have two live leaves
+            let (pad, _) = store::mon_mem();
+            let mut pa = cur.clone();
+            let mut pb = cur2.clone();
+            let out = guard(|| {
+                m.commit(None)?;
+                set_caps((cap, dcap));
+                let mut peer = Melda::new(pad.clone())?;
+                peer.meld(&m)?;
+                peer.refresh()?;
+                edit_chain(&mut r, &mut pa, &ids, 6);
+                edit_chain(&mut r, &mut pa, &ids, 6);
+                edit_chain(&mut r, &mut pb, &tids, 6);
+                peer.update(mkdoc(&key, &key2, &pa, &pb, 1000 + step))?;
+                let wa = peer.get_winner(A)?;
+                let wb = peer.get_winner(B)?;
+                peer.commit(None)?;
+                edit_chain(&mut r, &mut cur, &ids, 6);
+                edit_chain(&mut r, &mut cur2, &tids, 3);
+                m.update(mkdoc(&key, &key2, &cur, &cur2, 2000 + step))?;
+                let ma = m.get_winner(A)?;
+                let mb = m.get_winner(B)?;
+                m.commit(None)?;
+                m.meld(&peer)?;
+                m.refresh()?;
+                Ok((wa, wb, ma, mb))
+            });
+            match out {
+                Outcome::Ok((wa, wb, ma, mb)) => {
+                    recorded.push((A, wa, pa.clone()));
+                    recorded.push((B, wb, pb.clone()));
+                    recorded.push((A, ma, cur.clone()));
+                    recorded.push((B, mb, cur2.clone()));
+                    conflicts += 1;
+                    res.trace.push(format!("peer branch: peer items={:?} tags={:?}; own items={:?} tags={:?}; melded back", pa, pb, cur, cur2));
+                    // from here the replica's own view is the merged one; the next submitted arrays start from it
+                    if let (ds, true) = read_doc(&m) {
+                        let dv: Value = serde_json::from_str(&ds).unwrap();
+                        cur = find_array(&dv, A).map(|a| ids_of(a)).unwrap_or_default();
+                        cur2 = find_array(&dv, B).map(|a| ids_of(a)).unwrap_or_default();
+                    }
+                }
+                o => {
+                    if let Outcome::Panic(p) = &o {
+                        res.viol("C08", "panic-in-peer-branch", p.clone());
+                    }
+                    res.viol("C16", "peer-branch-failed-in-chain", o.describe());
+                    return res;
+                }
+            }
+        }
         // every historical revision reconstructs to what was submitted, in random query order
-        for _ in 0..3 {
-            let (rev, exp) = &recorded[r.below(recorded.len())];
+        for _ in 0..4 {
+            let (u, rev, exp) = &recorded[r.below(recorded.len())];
             let mm = &m;
-            match guard(|| mm.verif_array_order(A, rev)) {
+            match guard(|| mm.verif_array_order(u, rev)) {
                 Outcome::Ok(o) => {
                     let o: Vec<String> = o.iter().filter_map(|x| x.as_str().map(|s| s.to_string())).collect();
                     res.count("c16_historical_reconstructions", 1);
                     if &o != exp {
-                        res.viol("C16", "historical-version-reconstructs-differently", format!("cap {} rev {}: {:?} vs submitted {:?}", cap, rev, o, exp));
+                        res.viol("C16", "historical-version-reconstructs-differently", format!("cap {} {} rev {}: {:?} vs submitted {:?}", cap, u, rev, o, exp));
                     }
                 }
                 Outcome::Err(e) => {
-                    // a revision dropped by unstage-free flows must still exist
-                    res.viol("C16", "historical-version-not-reconstructible", format!("{} {}", rev, e));
+                    res.viol("C16", "historical-version-not-reconstructible", format!("{} {} {}", u, rev, e));
                 }
                 Outcome::Panic(p) => {
                     res.viol("C16", "reconstruction-panicked", p);
@@ -529,12 +603,13 @@ pub fn c16_case(seed: u64, case: u64, steps: usize) -> CaseResult {
             }
         }
     }
-    let maxidx = recorded.iter().filter_map(|(r, _)| crate::refmodel::rev_parts(r).map(|p| p.0)).max().unwrap_or(0);
+    let maxidx = recorded.iter().filter_map(|(_, r, _)| crate::refmodel::rev_parts(r).map(|p| p.0)).max().unwrap_or(0);
     res.features.insert("chain_length".into(), maxidx as u64);
     res.features.insert("cache_cap".into(), cap as u64);
     res.features.insert("reopens".into(), reopens);
+    res.features.insert("edits_under_conflict".into(), conflicts);
     res.opkinds = format!("{}-{}-{}", cap, dcap, steps);
-    res.sample = Some(json!({"cache_cap": cap, "chain_length": maxidx, "reopens": reopens, "last_array": cur}));
+    res.sample = Some(json!({"cache_cap": cap, "chain_length": maxidx, "reopens": reopens, "peer_branches": conflicts, "last_items": cur, "last_tags": cur2}));
     res
 }
 pub fn c16_nontrivial(res: &CaseResult) -> bool {
